@@ -166,18 +166,22 @@ GrpCloseReject == /\ GrpGuard /\ ~T[1] /\ DChar = ")" /\ Len(stack) = 1
                   /\ IF Bug = "noclosecheck"
                      THEN tk' = tk + 1 /\ UNCHANGED <<ScanVars, phase, stack, tree, rejected>>
                      ELSE rejected' = TRUE /\ tree' = <<>> /\ phase' = "done" /\ UNCHANGED <<ScanVars, tk, stack>>
-GrpOther == /\ GrpGuard /\ ~T[1] /\ DChar \notin {"(", ")"}
+GrpOther == /\ GrpGuard /\ ~T[1] /\ DChar \notin {"(", ")"} /\ Bug # "stuck"
             /\ tk' = tk + 1 /\ UNCHANGED <<ScanVars, phase, stack, tree, rejected>>
 GrpFinishOk == /\ phase = "group" /\ tk > Len(out) /\ Len(stack) = 1
                /\ tree' = stack[1].kids /\ phase' = "done" /\ UNCHANGED <<ScanVars, tk, stack, rejected>>
 GrpFinishReject == /\ phase = "group" /\ tk > Len(out) /\ Len(stack) # 1
                    /\ rejected' = TRUE /\ tree' = <<>> /\ phase' = "done" /\ UNCHANGED <<ScanVars, tk, stack>>
+\* stuttering once finished, so that TLC's deadlock check means: the algorithm never gets stuck before "done"
+Terminated == phase = "done" /\ UNCHANGED vars
 Next == \/ ScanBlank \/ ScanDelimAfterDelim \/ ScanDelimAfterTag \/ ScanTagChar \/ ScanFinish
         \/ GrpTag \/ GrpOpen \/ GrpClose \/ GrpCloseReject \/ GrpOther \/ GrpFinishOk \/ GrpFinishReject
+        \/ Terminated
 Spec == Init /\ [][Next]_vars
 
 (* ======================= 3. properties ======================= *)
-Scanned == phase # "scan"
+\* the token list is complete and never changes afterwards: checking it in the first state after the scan suffices
+Scanned == phase = "group" /\ tk = 1
 Done == phase = "done"
 TagToks == SelectSeq(out, LAMBDA t : t[1])
 AlgoTags == [j \in 1..Len(TagToks) |-> <<TagToks[j][2], TagToks[j][3]>>]
@@ -212,6 +216,5 @@ RoundTrip == Done /\ Balanced(src) =>
    LET p == PrintKids(src, tree) IN Balanced(p) /\ ShapeKids(p, DeclTree(p)) = ShapeKids(src, tree)
 PrintStable == Done /\ Balanced(src) =>
    LET p == PrintKids(src, tree) IN PrintKids(p, DeclTree(p)) = p
-\* the step-wise algorithm always terminates in "done" (no stuck state): checked as absence of deadlock before done
-NoStuck == ~Done => ENABLED Next
+\* (the step-wise algorithm never gets stuck before "done": TLC's deadlock check, see Terminated)
 ====
